@@ -98,6 +98,8 @@ struct Ctx {
     touched_by_orders: Vec<bool>,
     /// market index -> deposit PnL cap configured below the withdrawal PnL cap (either side).
     dep_cap_below_wd_cap: Vec<bool>,
+    /// market index -> direction of the positions opened so far (last successful one).
+    pos_dir: Vec<Option<bool>>,
     users: Vec<Pubkey>,
     lp: Pubkey,
     position_world: bool,
@@ -386,10 +388,6 @@ fn gen_ticks(rng: &mut Rng, base: u64) -> Ticks {
     Ticks { bid, mid, ask }
 }
 
-fn whole(tok: usize) -> u64 {
-    10u64.pow(TOKENS[tok].1 as u32)
-}
-
 /// A "reasonable" pool funding amount for a token, in token units (log-uniform over ~3 decades).
 fn funding_amount(rng: &mut Rng, tok: usize, scale_milli: u64) -> u64 {
     // target USD value 300 .. 100_000, at the *base* price
@@ -480,6 +478,7 @@ fn build(shard: u64, rng: &mut Rng, m: &mut Monitor) -> Ctx {
         ticks,
         touched_by_orders: vec![false; n_markets],
         dep_cap_below_wd_cap: vec![false; n_markets],
+        pos_dir: vec![None; n_markets],
         users,
         lp,
         position_world,
@@ -586,7 +585,8 @@ fn build(shard: u64, rng: &mut Rng, m: &mut Monitor) -> Ctx {
                 .iter()
                 .enumerate()
                 {
-                    let f = *rng.pick(&[5u128, 20, 60, 95]) * UNIT / 100;
+                    // deposits (i < 2) mostly get the lower cap: the configuration the GLV pricing must survive
+                    let f = if i < 2 { *rng.pick(&[2u128, 5, 20, 60, 95]) } else { *rng.pick(&[20u128, 60, 95]) } * UNIT / 100;
                     caps[i] = f;
                     if ctx.w.update_market_config(mi, key, f).is_err() {
                         m.count("setup_update_market_config_failed");
@@ -606,18 +606,41 @@ fn build(shard: u64, rng: &mut Rng, m: &mut Monitor) -> Ctx {
 
 fn open_position(ctx: &mut Ctx, rng: &mut Rng, m: &mut Monitor, mi: usize) {
     let user = ctx.users[rng.below(ctx.users.len() as u64) as usize];
-    let is_long = rng.bool();
-    let collateral_long = rng.chance(1, 4);
+    // Mostly pile onto the side that is already there (one-sided markets give the traders a large PnL).
+    let is_long = match ctx.pos_dir[mi] {
+        Some(d) if rng.chance(4, 5) => d,
+        _ => rng.bool(),
+    };
     let mk = ctx.w.markets[mi].clone();
+    let Some(market) = load::<Market>(&ctx.w.svm, &mk.market) else {
+        return;
+    };
+    let Some(pool) = market.pool(PoolKind::Primary) else {
+        return;
+    };
+    // USD (10^-20) backing this side: longs are backed by the long token, shorts by the short token.
+    let (amount, tok) = if is_long { (pool.long_amount().unwrap_or(0), mk.long) } else { (pool.short_amount().unwrap_or(0), mk.short) };
+    let side_usd = b(amount) * ctx.unit_price(tok, false);
+    let frac = *rng.pick(&[20u32, 60, 120, 250, 400]); // permille of the backing side
+    let Some(size) = vcommon::big::to_u128(&(side_usd * b(frac) / b(1000u32))) else {
+        return;
+    };
+    if size < 2 * UNIT {
+        return;
+    }
+    let collateral_long = rng.chance(1, 4);
     let ctok = if collateral_long { mk.long } else { mk.short };
-    // collateral worth 200 .. 20_000 USD (at base prices), leverage 1.5 .. 8
-    let collateral = funding_amount(rng, ctok, 200).max(1);
-    let (_, d, p, _, base) = TOKENS[ctok];
-    let usd = collateral as u128 * base as u128 / pow10(p as u32) / pow10(d as u32);
-    let lev10 = rng.range(15, 80) as u128;
+    let lev10 = rng.range(15, 60) as u128;
+    let collateral_usd = b(size) * b(10u32) / b(lev10);
+    let Some(collateral) = vcommon::big::to_u64(&(collateral_usd / ctx.unit_price(ctok, false).max(b(1u32)))) else {
+        return;
+    };
+    if collateral == 0 {
+        return;
+    }
     let mut req = OrderReq::new(OrderKind::MarketIncrease, mi, is_long, collateral_long);
     req.initial_collateral_delta_amount = collateral;
-    req.size_delta_value = usd.max(2) * lev10 * UNIT / 10;
+    req.size_delta_value = size;
     ctx.touched_by_orders[mi] = true;
     m.count("position_open_attempts");
     match ctx.w.create_order(user, &req) {
@@ -625,16 +648,46 @@ fn open_position(ctx: &mut Ctx, rng: &mut Rng, m: &mut Monitor, mi: usize) {
             match ctx.w.execute_order(o, true) {
                 Ok(_) => {
                     m.count("position_open_ok");
-                    ctx.note(format!("open position market={mi} long={is_long} collateral={collateral}(long_token={collateral_long}) size_usd_x10={}", usd * lev10));
+                    ctx.pos_dir[mi] = Some(is_long);
+                    ctx.note(format!("open position market={mi} long={is_long} collateral={collateral}(long_token={collateral_long}) size={size} ({frac} permille of the backing side)"));
                 }
                 Err((e, _)) => {
                     m.count(&format!("position_open_failed_{}", err_class(&e)));
+                    ctx.note(format!("open position market={mi} long={is_long} collateral={collateral} size={size} -> failed {}", err_class(&e)));
                 }
             }
             let _ = ctx.w.close_order(user, o);
         }
         Err((e, _)) => m.count(&format!("position_create_failed_{}", err_class(&e))),
     }
+}
+
+/// Move the index price of a market with positions in the traders' favour (large trader PnL is the
+/// hostile market state for GLV pricing: it is where the PnL caps and the maximize flags matter).
+fn op_price_pressure(ctx: &mut Ctx, rng: &mut Rng, m: &mut Monitor) {
+    let cands: Vec<usize> = (0..ctx.w.markets.len()).filter(|i| ctx.pos_dir[*i].is_some()).collect();
+    if cands.is_empty() {
+        return op_prices(ctx, rng, m);
+    }
+    let mi = *rng.pick(&cands);
+    let up = ctx.pos_dir[mi] == Some(true);
+    let tok = ctx.w.markets[mi].index;
+    let t = ctx.ticks[tok];
+    let f = if up { rng.range(1050, 1800) } else { rng.range(450, 950) } as u128;
+    let base = TOKENS[tok].4 as u128;
+    let mid = (t.mid as u128 * f / 1000).clamp((base / 20).max(10), base * 40) as u64;
+    let half = match rng.below(4) {
+        0 => 0,
+        1 => 1,
+        2 => (mid / 2000).max(1),
+        _ => (mid / 200).max(1),
+    };
+    ctx.ticks[tok] = Ticks { bid: mid.saturating_sub(half).max(1), mid, ask: mid + half };
+    m.count("op_price_pressure");
+    if !ctx.publish(tok) {
+        panic!("harness: price publication failed");
+    }
+    ctx.note(format!("price pressure market={mi} index={} ticks {}/{}/{}", TOKENS[tok].0, ctx.ticks[tok].bid, mid, ctx.ticks[tok].ask));
 }
 
 // ------------------------------------------------------------------------------------------------
@@ -891,8 +944,9 @@ fn plan_deposit(ctx: &Ctx, w: &World, rng: &mut Rng) -> Option<DepositPlan> {
     } else {
         0
     };
-    let long = if matches!(kind, 4 | 6 | 7) { funding_amount(rng, mk.long, *rng.pick(&[1u64, 30, 300])) } else { 0 };
-    let short = if matches!(kind, 5 | 6 | 7) { funding_amount(rng, mk.short, *rng.pick(&[1u64, 30, 300])) } else { 0 };
+    let (sl, ss) = (*rng.pick(&[1u64, 30, 300]), *rng.pick(&[1u64, 30, 300]));
+    let long = if matches!(kind, 4 | 6 | 7) { funding_amount(rng, mk.long, sl) } else { 0 };
+    let short = if matches!(kind, 5 | 6 | 7) { funding_amount(rng, mk.short, ss) } else { 0 };
     if mt_amount == 0 && long == 0 && short == 0 {
         return None;
     }
@@ -903,7 +957,7 @@ fn plan_deposit(ctx: &Ctx, w: &World, rng: &mut Rng) -> Option<DepositPlan> {
 enum Exec {
     NotCreated(TxError),
     Failed(TxError, Pubkey),
-    Cancelled(TxMeta, Pubkey),
+    Cancelled(Pubkey),
     Executed(TxMeta, Pubkey),
 }
 
@@ -916,7 +970,7 @@ fn run_deposit(glv: &GlvInfo, user: Pubkey, w: &mut World, plan: &DepositPlan, t
         Err((e, _)) => Exec::Failed(e, d),
         Ok(meta) => match w.glv_deposit_state(&d) {
             Some(ActionState::Completed) => Exec::Executed(meta, d),
-            _ => Exec::Cancelled(meta, d),
+            _ => Exec::Cancelled(d),
         },
     }
 }
@@ -992,7 +1046,7 @@ fn op_glv_deposit(ctx: &mut Ctx, rng: &mut Rng, m: &mut Monitor) {
             let r = ctx.w.close_glv_deposit(user, d);
             m.count(if r.is_ok() { "glv_deposit_cancelled_by_owner" } else { "glv_deposit_cancel_failed" });
         }
-        Exec::Cancelled(_, d) => {
+        Exec::Cancelled(d) => {
             m.count("glv_deposit_cancelled_on_execution_error");
             if expect == Some(false) {
                 m.count("boundary_cap_rejected_as_expected");
@@ -1254,6 +1308,21 @@ fn op_twin(ctx: &mut Ctx, rng: &mut Rng, m: &mut Monitor) {
     let bal0 = balances_of(ctx, &tw);
     let residual: u128 = bal0.values().map(|x| *x as u128).sum();
     let desc = format!("twin user{} market={mi} mt={} long={} short={}", plan.user, plan.mt_amount, plan.long, plan.short);
+    // Diagnostics: is the market in a state where the pool value used to price withdrawals (maximized,
+    // withdrawal PnL cap) is below the one used to price deposits (minimized, deposit PnL cap)?
+    let mut inverted_pool_values = false;
+    if ctx.touched_by_orders[mi] {
+        let mt = tw.markets[mi].market_token;
+        let d = tw.view_market_token_value(mt, 0, PNL_DEPOSIT, false).ok().map(|e| e.pool_value);
+        let w = tw.view_market_token_value(mt, 0, "max_after_withdrawal", true).ok().map(|e| e.pool_value);
+        if let (Some(d), Some(w)) = (d, w) {
+            m.count("twin_prestate_with_positions_pool_values_read");
+            if w < d {
+                inverted_pool_values = true;
+                m.count("twin_prestate_withdrawal_pool_value_below_deposit_pool_value");
+            }
+        }
+    }
     let glv = ctx.glv;
     let (meta, d) = match run_deposit(&glv, user, &mut tw, &plan, true) {
         Exec::Executed(meta, d) => (meta, d),
@@ -1265,7 +1334,7 @@ fn op_twin(ctx: &mut Ctx, rng: &mut Rng, m: &mut Monitor) {
             m.count(&format!("twin_deposit_failed_{}", err_class(&e)));
             return;
         }
-        Exec::Cancelled(..) => {
+        Exec::Cancelled(_) => {
             m.count("twin_deposit_cancelled");
             return;
         }
@@ -1327,10 +1396,18 @@ fn op_twin(ctx: &mut Ctx, rng: &mut Rng, m: &mut Monitor) {
     if supply0 == 0 {
         m.count("twin_on_empty_glv_supply");
     }
+    // What can never be exceeded, whatever the class: the vault's recorded balance plus the deposit.
+    let vault_before = bal0.get(&mi).copied().unwrap_or(0) as u128;
+    if taken_out as u128 > vault_before + put_in as u128 {
+        m.violation(
+            "C45:glv_roundtrip:more_market_tokens_returned_than_vault_balance_plus_deposit",
+            ctx.witness(json!({"plan": format!("{plan:?}"), "deposited": put_in.to_string(), "withdrawn": taken_out.to_string(), "balances_before": format!("{bal0:?}")})),
+        );
+    }
     if taken_out > put_in {
         let class = if supply0 == 0 && residual > 0 {
             ":glv_supply_zero_with_residual_balance"
-        } else if ctx.touched_by_orders[mi] && ctx.dep_cap_below_wd_cap[mi] {
+        } else if ctx.touched_by_orders[mi] && ctx.dep_cap_below_wd_cap[mi] && inverted_pool_values {
             ":deposit_pnl_cap_below_withdrawal_cap"
         } else {
             ""
@@ -1461,7 +1538,8 @@ fn shard(args: &Args, shard: u64, m: &mut Monitor) {
     m.count("worlds");
     let steps = args.scale(70, 110);
     // op weights: insert, remove, caps, toggle, glv config, prices, activity, deposit, withdrawal, twin, shift
-    let weights = [7u32, 2, 5, 2, 2, 8, 6, 26, 12, 22, 8];
+    let pressure = if ctx.position_world { 8 } else { 0 };
+    let weights = [7u32, 2, 5, 2, 2, 8, 6, 26, 12, 22, 8, pressure];
     for s in 0..steps {
         ctx.step = s + 1;
         match rng.weighted(&weights) {
@@ -1475,10 +1553,8 @@ fn shard(args: &Args, shard: u64, m: &mut Monitor) {
             7 => op_glv_deposit(&mut ctx, &mut rng, m),
             8 => op_glv_withdrawal(&mut ctx, &mut rng, m),
             9 => op_twin(&mut ctx, &mut rng, m),
-            _ => op_shift(&mut ctx, &mut rng, m),
-        }
-        if m.has_violations() && ctx.hist.len() > 400 {
-            break;
+            10 => op_shift(&mut ctx, &mut rng, m),
+            _ => op_price_pressure(&mut ctx, &mut rng, m),
         }
     }
     if m.wants_sample() {
@@ -1510,7 +1586,7 @@ pub fn run(args: &Args) -> Option<i32> {
     mon.assume("prices are multiples of the token's configured precision tick and fit the u32 price mantissa, so the feed conversion is exact");
     mon.assume("no swap paths and no virtual inventories in GLV actions; GLV deposits pay in the market's own long / short tokens");
     mon.assume("max-value recomputation follows the program's definition: balance * pool_value(MaxAfterDeposit, maximize=true) / supply (floor), pools after the deposit");
-    let n_shards = args.scale(64, 1600);
+    let n_shards = args.scale(64, 1200);
     let quiet = hostsvm::QuietStdout::new();
     run_shards(&mut mon, args.threads, n_shards, |i, m| shard(args, i, m));
     drop(quiet);
